@@ -352,7 +352,7 @@ func runUpdateBehaviours(t *testing.T, res *drv.Result, behs [][]tla.SimStep, T 
 				buf = buf[:runtime.Stack(buf, true)]
 				_ = os.WriteFile(f, buf, 0o644)
 			}
-			report("monitor", "panic-or-blocked", fmt.Sprintf("behaviour ended with: %v", p), nil, 0)
+			report("conformance", "leftover-goroutines", fmt.Sprintf("behaviour ended with: %v (a leak is not what C06 states)", p), nil, 0)
 		}
 	}()
 	synctest.Test(t, func(t *testing.T) {
